@@ -120,6 +120,40 @@ func runC01(s *kernel.Sim) {
 		return harness && inBurst && isLockPoint(point) && siteOn(a[0])
 	}
 	s.LogEngineEvents = false
+	// the engine's own increment decisions (emitted under the quota mutex)
+	type incEv struct {
+		key, result string
+		restarted   bool
+	}
+	incs := map[string][]incEv{} // request id -> increments
+	sinceRestart := map[string]int64{}
+	s.OnEvent = func(kind string, a []string) {
+		if kind != "fw.inc" || len(a) != 4 {
+			return
+		}
+		key := strings.TrimSuffix(a[0], "_currentCount")
+		incs[a[1]] = append(incs[a[1]], incEv{key, a[2], a[3] == "true"})
+		if a[3] == "true" {
+			sinceRestart[key] = 0
+		}
+		if a[2] == "increased" {
+			sinceRestart[key]++
+			for i := range levels {
+				if strings.HasPrefix(key, levels[i].id+"_") && sinceRestart[key] > levels[i].max {
+					s.Violate("R1", "window-counter-exceeds-max", "quota %s counted %d admitted increments since its window last restarted, max %d", key, sinceRestart[key], levels[i].max)
+				}
+			}
+		}
+	}
+	// counted: the request has a counted increment at the given level
+	counted := func(id string, l *c01level, grp string) bool {
+		for _, e := range incs[id] {
+			if e.key == c01key(l, grp) && e.result == "increased" {
+				return true
+			}
+		}
+		return false
+	}
 
 	models := []*c01model{{name: "exact", alive: true, st: map[string]*c01state{}},
 		{name: "trunc-to-second", trunc: true, alive: true, st: map[string]*c01state{}}}
@@ -188,10 +222,36 @@ func runC01(s *kernel.Sim) {
 					b.out = env.doRequest(reqMsg(id, "GET", "a.com", fmt.Sprintf("/l%d", b.target), h))
 				})
 			}
+			jumped := false
 			for steps := 0; steps < 4000; steps++ {
 				p := s.ParkedTasks()
 				if len(p) == 0 {
 					break
+				}
+				// sometimes the clock crosses a window end while requests are parked
+				// between their increment and their verdict
+				if steps > 0 && tp.Chance(1, 12) {
+					var ends []time.Duration
+					for _, m := range models {
+						for _, k := range sortedKeys(m.st) {
+							for i := range levels {
+								if strings.HasPrefix(k, levels[i].id+"_") {
+									e := time.Duration(m.st[k].start+int64(levels[i].win)) - time.Duration(s.Start.UnixNano())
+									if e > s.Now() {
+										ends = append(ends, e, e+1)
+									}
+								}
+							}
+						}
+					}
+					if len(ends) > 0 {
+						s.SleepUntil(ends[tp.Choose(len(ends))])
+					} else {
+						s.Sleep(maxW)
+					}
+					jumped = true
+					s.FaultFired("clock_crosses_window_end_inside_burst")
+					continue
 				}
 				s.Resume(p[tp.Choose(len(p))])
 			}
@@ -201,6 +261,24 @@ func runC01(s *kernel.Sim) {
 			}
 			s.FaultFired("concurrent_burst")
 			s.Rule("R1-burst")
+			// every admitted request must have been counted at every level on its path
+			for bi, b := range brs {
+				if b.out.Early || b.out.Err != nil {
+					continue
+				}
+				id := fmt.Sprintf("t%d", reqN-len(brs)+bi+1)
+				for i := b.target; i >= 0; i = levels[i].parent {
+					if !counted(id, &levels[i], b.grp) {
+						s.Violate("R1", "admitted-without-counted-increment", "request %s (quota %s, group %q) was admitted although quota %s never counted it (its increment was refused or missing)", id, levels[b.target].id, b.grp, levels[i].id)
+					}
+				}
+			}
+			if jumped {
+				// instants differ inside the burst: the per-instant bound below does not apply
+				s.Nontrivial()
+				s.Sleep(maxW + time.Second + time.Duration(tp.Choose(1000))*time.Millisecond)
+				continue
+			}
 			for _, m := range models {
 				if !m.alive {
 					continue
@@ -262,6 +340,13 @@ func runC01(s *kernel.Sim) {
 		}
 		admitted := !out.Early
 		s.Event("request", id, levels[target].id, grp, fmt.Sprint(admitted))
+		if admitted {
+			for i := target; i >= 0; i = levels[i].parent {
+				if !counted(id, &levels[i], grp) {
+					s.Violate("R1", "admitted-without-counted-increment", "request %s (quota %s, group %q) was admitted although quota %s never counted it", id, levels[target].id, grp, levels[i].id)
+				}
+			}
+		}
 		if out.Early && out.Status != 429 {
 			s.Violate("R2", "wrong-status", "refusal carried status %d, flow configures 429", out.Status)
 		}
